@@ -264,7 +264,7 @@ Section Transparency.
       destruct (serveU (cU, hsU) now r) as [[stU rpU] lgU] eqn:SU.
       destruct (serve_sim _ _ _ _ _ _ _ cU hsU SC I Hno) as [I' E]. rewrite SU in E. cbn [fst snd] in E.
       split; [exact I' | split; [reflexivity | exact E]].
-    - cbn [fst]. split; [| split; [reflexivity | exact Logic.I]]. unfold clear_page. apply Inv_remove, Inv_remove, I.
+    - cbn [fst]. split; [| split; [reflexivity | exact Logic.I]]. unfold clear_page, clear_uri. destruct (redirect_target r); repeat apply Inv_remove; exact I.
     - cbn [fst]. split; [| split; [reflexivity | exact Logic.I]]. apply Inv_nil.
     - cbn [fst]. split; [| split; [reflexivity | exact Logic.I]]. exact I.
   Qed.
